@@ -215,7 +215,7 @@ PROPS['C10'] = {
     'parts': [engine_part('chunks', 'e_views', 'C10', shards_quick=2, asan='thorough')],
     'rule': ("N in {0,1,2,3,7,8,16,17,33,64,100,1024} x every L in 0..=4N+3 (N>=100: {0,1,N-1,N,N+1,2N-1,2N,2N+1,4N+3}) x {chunks_from_slice, chunks_from_slice_mut} x element in {u8, padded (u8,u16), u64, (), 16-aligned, tracked}; oracle: parts are "
              "(src, L/N) and (src + (L/N)*N*size, L mod N), element [c][j] == src[c*N+j], slice_from_chunks(_mut) of the chunk part is (src, (L/N)*N), writes through each mutable part land at that source index, canaries untouched; N = 0: empty -> two empty "
-             "results, non-empty -> the documented panic. from_chunks/into_chunks(_mut) for chunk counts 0..=5: same address and count, writes visible. Non-trivial = L > 0."),
+             "results, non-empty -> the documented panic. from_chunks/into_chunks(_mut) for chunk counts 0..=5: same address and count, writes visible. For zero-sized elements also L in {2^32-2, 2^32-1, 2^32, 2^32+7, 2^33+1, 2^40+N+1, isize::MAX} (lengths only). Non-trivial = L > 0."),
     'exhaustive': True,
     'exhaustive_scope': 'the listed finite product; complete in L for N < 100',
     'assumptions': COMMON_ASSUME,
